@@ -6,8 +6,11 @@ import os
 ROOT = os.path.dirname(os.path.dirname(os.path.abspath(__file__)))
 base = json.load(open(os.path.join(ROOT, "manifest.d", "_base.json")))
 checks = []
+enabled = set(open(os.path.join(ROOT, "manifest.d", "_enabled.txt")).read().split())
 for f in sorted(glob.glob(os.path.join(ROOT, "manifest.d", "C*.json"))):
-    checks.append(json.load(open(f)))
+    c = json.load(open(f))
+    if c["property_id"] in enabled:      # only checks the lead has accepted (run clean on /repo) are registered
+        checks.append(c)
 base["checks"] = checks
 claimed = {c["property_id"] for c in checks}
 base["not_applicable"] = [x for x in base.get("not_applicable", []) if x["property_id"] not in claimed]
